@@ -10,6 +10,7 @@
 """
 from .. import shape as S
 from .. import mir as M
+from .. import dflow as D
 
 FILE = "src/values.rs"
 # variants that need no diagonal arm, with the reason
@@ -123,6 +124,71 @@ def context_free_types(P, res):
     res.floor("CONTEXT-FREE-TYPE", "value-building functions that read the frame's type bindings", n, 1)
 
 
+def list_type_from_elements(P, res, rule="LIST-TYPE-FROM-ELEMENTS"):
+    """a list literal takes its hidden element type from its elements (the last one); a list obtained by adding an element
+    to another list must do the same, or the same list built the two ways differs in runtime type -- which `==` on an
+    enclosing enum / struct value compares. Where a Value_::List is built from items produced by push_back/push, the
+    elem_type operand must not come (on any path) from the receiver's elem_type field."""
+    from .. import mir as M2
+
+    def roots(f, op, seen, depth=0):
+        r = f.root_of(op, through_named=True)
+        if r[0] == "call":
+            n = M2.callee_name(r[2]) or "?"
+            if n.endswith("::clone") and r[2]["args"]:
+                return roots(f, r[2]["args"][0], seen, depth + 1)
+            return {("call", n)}
+        if r[0] == "place":
+            if r[1]["p"]:
+                return {("field", ".".join(str(x) for x in f.field_path(r[1])))}
+            l = r[1]["l"]
+            if l in seen or depth > 6:
+                return set()
+            seen.add(l)
+            out = set()
+            for (b_, si, st) in f.defs.get(l, []):
+                if si == "term":
+                    n = M2.callee_name(st) or "?"
+                    if n.endswith("::clone") and st["args"]:
+                        out |= roots(f, st["args"][0], seen, depth + 1)
+                    else:
+                        out.add(("call", n))
+                elif st.get("s") == "assign":
+                    rv = st["rv"]
+                    if rv["k"] == "use":
+                        out |= roots(f, rv["a"], seen, depth + 1)
+                    elif rv["k"] == "ref":
+                        out.add(("field", ".".join(str(x) for x in f.field_path(rv["place"])) or "local"))
+                    else:
+                        out.add((rv["k"], ""))
+            return out
+        return {(r[0], "")}
+    n = 0
+    for p_, f in sorted(P.funcs.items()):
+        if not p_.startswith("eval::") or p_.endswith("::clone"):
+            continue
+        for bi, b in enumerate(f.blocks):
+            for st in b["stmts"]:
+                if not (st.get("s") == "assign" and st["rv"]["k"] == "agg" and st["rv"].get("adt") == "values::Value_" and st["rv"].get("variant") == "List"):
+                    continue
+                flds = st["rv"].get("fields") or []
+                if "items" not in flds or "elem_type" not in flds:
+                    continue
+                items = roots(f, st["rv"]["ops"][flds.index("items")], set())
+                if not any(k == "call" and v.endswith(("::push_back", "::push_back_mut", "Vec::<T, A>::push")) for k, v in items):
+                    continue
+                n += 1
+                et = roots(f, st["rv"]["ops"][flds.index("elem_type")], set())
+                arm = D.arm_label(f, bi, enums={"BuiltInMethodKind", "BuiltInFunctionKind"}) if hasattr(D, "arm_label") else ""
+                key = "%s # %s # extended list" % (p_, arm or "-")
+                if any(k == "field" and v.endswith("elem_type") for k, v in et):
+                    res.bad(rule, key, "%s [%s] builds a list by adding an element and gives it (on some path) the receiver's hidden element type instead of deriving it "
+                            "from the elements as a list literal does: `Some([None].append(Some(1))) == Some([None, Some(1)])` turns False" % (p_, arm), st.get("span"))
+                else:
+                    res.ok(rule, key + ": element type derived from %s" % sorted(v.split("::")[-1] for k, v in et if k == "call"))
+    res.floor(rule, "lists built by extending another list", n, 1)
+
+
 def dict_type_order_free(P, res):
     """DICT-TYPE-ORDER-FREE: a dict prints and compares without regard to the order its entries were added, but its hidden
     `value_type` is part of the runtime type of an enclosing enum / struct value, which `==` compares. So wherever a
@@ -213,6 +279,7 @@ def run(ctx, res):
     res.floor("DIAGONAL-COVER", "variants of Value_", len(variants), 10)
     context_free_types(ctx.P, res)
     dict_type_order_free(ctx.P, res)
+    list_type_from_elements(ctx.P, res)
     fn = S.find_fn(sh, FILE, "eq", impl_self="Value_", impl_trait="PartialEq")
     ms = S.matches_in(fn["body"])
     if not ms or ms[0]["e"]["k"] != "Tuple":
